@@ -98,14 +98,15 @@ theorem par_rep (s : S) (n : Nat) (U : List (Nat × Nat)) (ρ : Nat → Nat) (v 
   obtain ⟨s', e, h', _, _⟩ := par_abs h hv hf
   exact ⟨s', e, h', h.rep_lt hv, h.rep_conn hv, h.sound⟩
 
-/-- **History refinement.**  For every initial size and every history of `un / par / check / size / reset / clone / swap`
-    whose arguments are in range (`Valid`), the model — which gives every find only `fuelFor s = log2 n + 1` stack frames —
+/-- **History refinement.**  For every initial size and every history of `un / par / check / size / reset / clone / swap /
+    cloneFrom / restore` (the last two are `Clone::clone_from` between the two live structures, in either direction) whose arguments are in range (`Valid`), the model — which gives every find only `fuelFor s = log2 n + 1` stack frames —
     runs to completion (no panic, no `fuel` error) and its results are `Sound`:
     `check u v = true ↔ Conn U u v` with `U` the unions since the last reset of that structure; `un u v` returns
     `true ↔ ¬ Conn U u v`; `size v` is the cardinality of the class of `v`; `par v = ρ v` where the representative
     function `ρ` satisfies `RepOK` (member of the class, equal for all members), is left unchanged by
     `par/check/size` and by a `un` answering `false`, and changes only on the two joined classes otherwise;
-    `clone` duplicates the specification state, after which both copies evolve independently.
+    `clone` duplicates the specification state, after which both copies evolve independently; `cloneFrom` / `restore`
+    overwrite the specification state of the destination with that of the source, whatever the destination was before.
     Moreover the state reached (current structure and clone) satisfies the invariant again. -/
 theorem history_refines (n0 : Nat) (ops : List Op) (hv : Valid n0 n0 ops) :
     ∃ y rs, run (initSys n0) ops = .ok (y, rs) ∧ Sound ⟨n0, [], id⟩ ⟨n0, [], id⟩ ops rs ∧
@@ -138,6 +139,19 @@ theorem history_depth (n0 : Nat) (ops : List Op) (hv : Valid n0 n0 ops) :
 theorem history_prefix_valid (n0 : Nat) (ops : List Op) (k : Nat) (hv : Valid n0 n0 ops) : Valid n0 n0 (ops.take k) :=
   Valid.take ops n0 n0 k hv
 
+/-- `saved.clone_from(&current)` is `saved = current.clone()` (std's contract for the provided method `Clone::clone_from`):
+    as a step of the model it is the step `clone`, for every pair of states (destination fresh, used, shorter, longer). -/
+theorem cloneFrom_spec (y : Sys) : step y .cloneFrom = step y .clone := by
+  obtain ⟨cur, saved⟩ := y; rfl
+
+/-- `current.clone_from(&saved)` (rolling back to the snapshot) is `swap` followed by `clone`: the current structure becomes
+    the snapshot, the snapshot stays, nothing of the overwritten structure survives. -/
+theorem restore_spec (y : Sys) :
+    ∃ y', step y .restore = .ok (y', .unit) ∧ run y [.swap, .clone] = .ok (y', [.unit, .unit]) ∧
+      y'.cur = y.saved ∧ y'.saved = y.saved := by
+  obtain ⟨cur, saved⟩ := y
+  exact ⟨⟨saved, saved⟩, rfl, rfl, rfl, rfl⟩
+
 /-- the budget `log2 n + 1` is what makes the executed model notice a degenerate forest: on a plain chain of depth 3 over
     4 elements (which violates the invariant) a find from the deepest vertex runs out of fuel. -/
 theorem chain_exhausts_budget :
@@ -158,6 +172,26 @@ example : ∃ s ρ, Abs s 4 [(0, 1)] ρ ∧ Inv s 4 ∧ ρ 0 = ρ 1 ∧ Reach s.
 -- a history with every kind of operation is `Valid`, so `history_refines` speaks about it
 example : Valid 3 3 [.un 0 1, .check 0 1, .size 1, .par 0, .clone, .reset 5, .un 4 0, .swap, .check 0 1, .size 2] := by
   simp [Valid]
+
+-- … also with `clone_from` in both directions onto used destinations of a different size: the snapshot (3 elements, one
+-- union) is overwritten by the 5-element structure, then the 2-element structure is rolled back to that snapshot
+example : Valid 3 3 [.un 0 1, .clone, .reset 5, .un 4 0, .cloneFrom, .reset 2, .un 0 1, .restore, .size 4, .check 4 0] := by
+  simp [Valid]
+
+-- `Sound` after a roll-back speaks about the SNAPSHOT's unions, not about those of the overwritten structure
+example (c d : Spec) (u v : Nat) (b : Bool) (h : Sound c d [.restore, .check u v] [.unit, .bool b]) :
+    b = true ↔ Conn d.U u v := by
+  cases h with
+  | restore _ _ _ _ h' =>
+    cases h' with
+    | check _ _ _ _ _ _ _ hb _ => exact hb
+
+-- … and the size reported after a roll-back is the cardinality w.r.t. the snapshot's unions
+example (c d : Spec) (v k : Nat) (h : Sound c d [.restore, .size v] [.unit, .nat k]) : IsCard d.n d.U v k := by
+  cases h with
+  | restore _ _ _ _ h' =>
+    cases h' with
+    | size _ _ _ _ _ _ hk _ => exact hk
 
 -- `Sound` is not trivially true: it pins the answer of `check`
 example (c d : Spec) (u v : Nat) (b : Bool) (h : Sound c d [.check u v] [.bool b]) : b = true ↔ Conn c.U u v := by
